@@ -88,10 +88,40 @@ func main() {
 				c.Input = g.Input(schemaNode)
 				c.Dest = eng.ZeroD(schemaNode)
 			}
-			want := canon(eng.RunBuiltQuiet(schema, c), c.ID)
-			jobs = append(jobs, &job{c: c, schema: schema, want: want})
+			jobs = append(jobs, &job{c: c, schema: schema})
 		}
 	}
+	// long slices: element indexes that no earlier call of this process has touched
+	for i := 0; i < 8; i++ {
+		n := &eng.Node{Kind: "slice", Elem: &eng.Node{Kind: "prim", PK: "int", Tests: []eng.TestSpec{{ID: 1, Name: "cmp", Op: "lt", Arg: eng.D{K: "i", NK: "int", I: 5}}}}}
+		rec := eng.NewRecorder()
+		schema := eng.Build(n, rec)
+		for k := 0; k < 4; k++ {
+			l := 150 + 97*i + 13*k
+			in := eng.V{K: "l"}
+			dst := eng.D{K: "sl"}
+			for j := 0; j < l; j++ {
+				in.L = append(in.L, eng.VInt(int64(j%11)))
+				dst.L = append(dst.L, eng.D{K: "i", NK: "int", I: int64(j % 11)})
+			}
+			if k%2 == 0 {
+				jobs = append(jobs, &job{c: &eng.Case{ID: len(jobs), Mode: "p", Schema: n, Input: in, Dest: eng.ZeroD(n)}, schema: schema})
+			} else {
+				jobs = append(jobs, &job{c: &eng.Case{ID: len(jobs), Mode: "v", Schema: n, Dest: dst}, schema: schema})
+			}
+		}
+	}
+	for _, j := range jobs {
+		j.c.Schema.GoType() // the harness caches reflect types lazily: do it before the goroutines start
+	}
+	// NOTE: nothing has been executed yet. The concurrent phase runs FIRST, so that lazily initialised
+	// shared state is first touched concurrently; the reference results are computed afterwards, alone.
+	type obs struct {
+		job int
+		got string
+	}
+	var obsMu sync.Mutex
+	var observed []obs
 	var mism int64
 	var done int64
 	var firstMismatch atomic.Value
@@ -103,13 +133,13 @@ func main() {
 			defer wg.Done()
 			r := rng.New(*seed*1000 + uint64(w))
 			for k := 0; k < per; k++ {
-				j := jobs[r.Intn(len(jobs))]
+				jid := r.Intn(len(jobs))
+				j := jobs[jid]
 				res := eng.RunBuiltQuiet(j.schema, j.c)
 				got := canon(res, j.c.ID)
-				if got != j.want {
-					atomic.AddInt64(&mism, 1)
-					firstMismatch.CompareAndSwap(nil, fmt.Sprintf("case %d\nalone:      %s\nconcurrent: %s", j.c.ID, j.want, got))
-				}
+				obsMu.Lock()
+				observed = append(observed, obs{jid, got})
+				obsMu.Unlock()
 				// hand results back concurrently too
 				if res.RawMap != nil && r.P(1, 2) {
 					z.Issues.CollectMap(res.RawMap)
@@ -121,6 +151,16 @@ func main() {
 		}(w)
 	}
 	wg.Wait()
+	// reference: every job alone, after the concurrent phase
+	for _, j := range jobs {
+		j.want = canon(eng.RunBuiltQuiet(j.schema, j.c), j.c.ID)
+	}
+	for _, o := range observed {
+		if o.got != jobs[o.job].want {
+			mism++
+			firstMismatch.CompareAndSwap(nil, fmt.Sprintf("case %d\nalone:      %.600s\nconcurrent: %.600s", o.job, jobs[o.job].want, o.got))
+		}
+	}
 	sum := map[string]any{"calls": done, "mismatches": mism, "workers": *workers, "shared_schemas": *nSchemas, "jobs": len(jobs)}
 	if v := firstMismatch.Load(); v != nil {
 		sum["first_mismatch"] = v
